@@ -37,6 +37,25 @@ def creation_rules(ctx, rule='C02.create'):
     return res
 
 
+def advance_sites(ctx, txalloc):
+    """where the allocation wrapper advances the high-water mark: [(bb, stmt index or None, description, is_addition)] — a direct store of
+    Meta.num_pages, or a call of a local helper (same type) that stores it"""
+    F = ctx.facts
+    out = []
+    du = ctx.du(txalloc)
+    for bb, si, s in stores_to_field(txalloc, 'Meta', 'num_pages'):
+        _, atoms = du.slice_operand(s['rv']['op']) if s['rv']['k'] == 'use' else (None, set())
+        out.append((bb, si, txalloc.loc(bb, si), any(a[0] == 'bin' and a[1].startswith('Add') for a in atoms), None))
+    for bb, t, target, c in F.call_sites(txalloc):
+        if target is None or target.self_adt != txalloc.self_adt:
+            continue
+        dg = ctx.du(target)
+        for b2, s2, st in stores_to_field(target, 'Meta', 'num_pages'):
+            _, atoms = dg.slice_operand(st['rv']['op']) if st['rv']['k'] == 'use' else (None, set())
+            out.append((bb, None, '%s (via %s)' % (txalloc.loc(bb), target.qual), any(a[0] == 'bin' and a[1].startswith('Add') for a in atoms), target))
+    return out
+
+
 def cow_write_set(ctx):
     rule = 'C02.cow.write-set'
     res = []
@@ -96,7 +115,8 @@ def cow_write_set(ctx):
     for bb, t in ins:
         _, atoms = du.slice_operand(t['args'][1])
         from_alloc = has_call(atoms, alloc.path)
-        from_hw = has_field(atoms, 'Meta', 'num_pages')
+        helpers = {x[4].path for x in advance_sites(ctx, txalloc) if x[4] is not None}
+        from_hw = has_field(atoms, 'Meta', 'num_pages') or any(a[0] == 'call' and a[2] in helpers for a in atoms)
         consts = [a for a in atoms if a[0] == 'const']
         if from_alloc and from_hw:
             res.append(ok(rule, 'page id recorded at %s comes from %s or the high-water mark' % (txalloc.loc(bb), alloc.qual), sites=1))
@@ -104,19 +124,18 @@ def cow_write_set(ctx):
             res.append(bad(rule, '%s | page id source' % txalloc.qual,
                            'the page id recorded at %s does not depend on both the free-set allocation (%s) and the high-water mark '
                            '(found: alloc=%s, num_pages=%s)' % (txalloc.loc(bb), alloc.qual, from_alloc, from_hw), where=txalloc.loc(bb)))
-    adv = stores_to_field(txalloc, 'Meta', 'num_pages')
+    adv = advance_sites(ctx, txalloc)
     if not adv:
         res.append(bad(rule, '%s | high-water mark not advanced' % txalloc.qual,
                        'the allocation wrapper takes pages from the high-water mark but never advances Meta.num_pages: '
                        'two allocations would receive the same fresh page', where='%s:%d' % (txalloc.file, txalloc.line)))
     else:
-        for bb, si, s in adv:
-            _, atoms = du.slice_operand(s['rv']['op']) if s['rv']['k'] == 'use' else (None, set())
-            if not any(a[0] == 'bin' and a[1].startswith('Add') for a in atoms):
+        for bb, si, where, is_add, helper in adv:
+            if not is_add:
                 res.append(bad(rule, '%s | high-water mark store is not an addition' % txalloc.qual,
-                               'Meta.num_pages is stored at %s from a value that is not the old mark plus the run length' % txalloc.loc(bb, si), where=txalloc.loc(bb, si)))
+                               'Meta.num_pages is stored at %s from a value that is not the old mark plus the run length' % where, where=where))
             else:
-                res.append(ok(rule, 'high-water mark advanced by addition at %s' % txalloc.loc(bb, si), sites=1))
+                res.append(ok(rule, 'high-water mark advanced by addition at %s' % where, sites=1))
     return res
 
 
@@ -162,8 +181,9 @@ def cow_free_set(ctx, rule='C02.cow.free-set'):
         res.append(bad(rule, '%s | free role touches free_pages' % fre.qual, 'the free role must only file pages as pending', where='%s:%d' % (fre.file, fre.line)))
     # init-role is reached only from DBInner::open
     sites = all_call_sites(F, ini)
+    import c03
     for f, bb, t in sites:
-        if f is not dbopen:
+        if f is not dbopen and not c03._only_via(F, f, dbopen):
             res.append(bad(rule, '%s | calls the load-on-open role' % f.qual,
                            '%s (re)loads the free set at %s; only DBInner::open may (reloading into a live free list makes in-use pages free)' % (f.qual, f.loc(bb)), where=f.loc(bb)))
     fl = floor(rule, 'mutation sites of Freelist.free_pages / pending_pages', n + len(sites), 4)
@@ -226,8 +246,16 @@ def reload_rule(ctx, rule='C02.reload'):
     except AnchorError as e:
         return [unresolved(rule, str(e))]
     F = ctx.facts
+    import c03
+    # the load may live in a helper that is reachable only through DBInner::open
+    holder = dbopen
+    if not calls_to_fn(F, dbopen, ini):
+        for g in sorted(F.reachable_fns([dbopen]), key=lambda f: f.path):
+            if g is not dbopen and calls_to_fn(F, g, ini) and c03._only_via(F, g, dbopen):
+                holder = g
+    sites = calls_to_fn(F, holder, ini)
+    dbopen = holder
     du = ctx.du(dbopen)
-    sites = calls_to_fn(F, dbopen, ini)
     if not sites:
         return [bad(rule, '%s | free list not loaded' % dbopen.qual, 'DBInner::open no longer loads the persisted free list into the free set '
                     '(after reopening, every freed page is forgotten)', where='%s:%d' % (dbopen.file, dbopen.line))]
@@ -245,28 +273,48 @@ def reload_rule(ctx, rule='C02.reload'):
     return res
 
 
+def image_builders(ctx):
+    """functions reachable from Tx::commit that build a header image in a byte buffer: they seal it (Meta.hash := checksum role)
+    through a pointer (`(*m).hash = ..`), unlike value conversions, which build a Meta value"""
+    F = ctx.facts
+    cm = ctx.A.get('Tx::commit')
+    cs = ctx.A.get('checksum-role')
+    out = []
+    if cm is None or cs is None:
+        return out
+    for fn in sorted(F.reachable_fns([cm]), key=lambda f: f.path):
+        for bb, si, s in stores_to_field(fn, 'Meta', 'hash'):
+            pr = s['p']['pr']
+            if len(pr) == 2 and pr[0]['k'] == 'deref' and s['rv']['k'] == 'use' and has_call(ctx.du(fn).slice_operand(s['rv']['op'])[1], cs.path):
+                out.append(fn)
+                break
+    return out
+
+
+def image_stores(fn, fld):
+    """stores into field `fld` of a header image through a `&mut Meta` pointer"""
+    return [(bb, si, s) for bb, si, s in stores_to_field(fn, 'Meta', fld) if len(s['p']['pr']) == 2 and s['p']['pr'][0]['k'] == 'deref']
+
+
 def alternate_rule(ctx, rule='C02.alternate'):
     """the header slot written by a commit is a non-identity function of the slot of the snapshot it started from"""
     res = []
-    T = commit.commit_trace(ctx)
-    H = [e for e in T.events('W') if e.get('sub') == 'H' and not e.get('summary')]
-    if not H:
-        return [floor(rule, 'header writes in the commit trace', 0, 1)]
-    for h in H:
-        n = T.nodes[h['node']]
-        fn = n.fn
+    builders = image_builders(ctx)
+    if not builders:
+        return [floor(rule, 'header-image builders in the commit trace', 0, 1)]
+    NONID = ('Eq', 'Ne', 'BitXor', 'Sub', 'SubWithOverflow', 'Add', 'AddWithOverflow', 'Rem', 'Lt', 'Gt')
+    for fn in builders:
         du = ctx.du(fn)
-        stores = stores_to_field(fn, 'Meta', 'meta_page')
+        stores = image_stores(fn, 'meta_page')
         if not stores:
-            res.append(bad(rule, '%s | header image never sets meta_page' % fn.qual, 'the header image written at %s never assigns Meta.meta_page' % h['loc'], where=h['loc']))
+            res.append(bad(rule, '%s | header image never sets meta_page' % fn.qual, 'the header image built in %s never assigns Meta.meta_page' % fn.qual, where='%s:%d' % (fn.file, fn.line)))
             continue
         for bb, si, s in stores:
             if s['rv']['k'] not in ('use', 'cast'):
                 continue
             _, atoms = du.slice_operand(s['rv']['op'])
             dep = has_field(atoms, 'Meta', 'meta_page')
-            nonid = any(a[0] == 'bin' and a[1] in ('Eq', 'Ne', 'BitXor', 'Sub', 'SubWithOverflow', 'Add', 'AddWithOverflow', 'Rem', 'Lt', 'Gt') for a in atoms) or \
-                any(a[0] == 'un' for a in atoms)
+            nonid = any(a[0] == 'bin' and a[1] in NONID for a in atoms) or any(a[0] == 'un' for a in atoms)
             if dep and nonid:
                 res.append(ok(rule, 'meta_page stored at %s is computed from (not copied from) the snapshot\'s slot' % fn.loc(bb, si), sites=1))
             else:
@@ -274,16 +322,29 @@ def alternate_rule(ctx, rule='C02.alternate'):
                                'the slot number stored into the header image at %s is %s: every commit would overwrite the same header page in place, '
                                'so a torn header write leaves no recent valid header' % (fn.loc(bb, si), 'a plain copy of the current slot' if dep else 'independent of the current slot'),
                                where=fn.loc(bb, si)))
-        # the file offset of the header write must come from the same computation
+    # the file offset of the header write must come from the same computation (directly, or through the builder's result)
+    T = commit.commit_trace(ctx)
+    H = [e for e in T.events('W') if e.get('sub') == 'H' and not e.get('summary')]
+    if not H:
+        res.append(floor(rule, 'header writes in the commit trace', 0, 1))
+    bpaths = {b.path for b in builders}
+    for h in H:
+        n = T.nodes[h['node']]
+        fn = n.fn
+        du = ctx.du(fn)
         seeks = [(sb, st) for sb, st, sc in calls_named(ctx.facts, fn, 'Seek::seek') if fn.dominates(sb, n.bb) and 'std::fs::File' in (sc.get('self_ty') or '')]
         seeks = [(sb, st) for sb, st in seeks if not any(fn.dominates(sb, ob) and fn.dominates(ob, n.bb) and ob != sb for ob, _ in seeks)]
         for sb, st in seeks[-1:]:
             _, atoms = du.slice_operand(st['args'][1])
-            if has_field(atoms, 'Meta', 'meta_page') and any(a[0] == 'bin' and a[1] in ('Eq', 'Ne', 'BitXor', 'Sub', 'SubWithOverflow') for a in atoms):
+            direct = has_field(atoms, 'Meta', 'meta_page') and any(a[0] == 'bin' and a[1] in ('Eq', 'Ne', 'BitXor', 'Sub', 'SubWithOverflow') for a in atoms)
+            via = any(a[0] == 'call' and a[2] in bpaths for a in atoms)
+            if direct or via:
                 res.append(ok(rule, 'header write offset at %s derives from the alternate-slot computation' % fn.loc(sb), sites=1))
             else:
                 res.append(bad(rule, '%s | header offset not from alternate slot' % fn.qual,
                                'the file offset of the header write (seek at %s) does not derive from the alternate-slot computation' % fn.loc(sb), where=fn.loc(sb)))
+        if not seeks:
+            res.append(bad(rule, '%s | header write without a preceding seek' % fn.qual, 'the header write at %s is not preceded by a seek on the file' % h['loc'], where=h['loc']))
     return res
 
 
